@@ -60,6 +60,7 @@ class Webs(object):
         self.loops = []          # stack of (break_states, continue_states)
         self.tries = []          # stack of lists collecting intermediate states
         self.captured_uses = []  # names read by closures
+        self.capture_info = {}   # id(Name) -> (definitions reaching the closure's creation, first later definition id) | None
 
     # ------------------------------------------------------------------ setup
     def _own_walk(self):
@@ -162,7 +163,7 @@ class Webs(object):
             a = node.args
             inner = {x.arg for x in a.posonlyargs + a.args + a.kwonlyargs} | \
                     {x.arg for x in (a.vararg, a.kwarg) if x}
-            self.capture(node.body, env | inner)
+            self.capture(node.body, env | inner, state)
             return state
         if isinstance(node, _COMPS):
             e2 = set(env)
@@ -171,17 +172,17 @@ class Webs(object):
                 if k == 0 or not lazy:
                     state = self.expr(gen.iter, state, frozenset(e2))
                 else:
-                    self.capture(gen.iter, frozenset(e2))
+                    self.capture(gen.iter, frozenset(e2), state)
                 e2 |= {t.id for t in ast.walk(gen.target) if isinstance(t, ast.Name)}
                 for c in gen.ifs:
                     if lazy:
-                        self.capture(c, frozenset(e2))
+                        self.capture(c, frozenset(e2), state)
                     else:
                         state = self.expr(c, state, frozenset(e2))
             for fld in ("elt", "key", "value"):
                 if hasattr(node, fld):
                     if lazy:
-                        self.capture(getattr(node, fld), frozenset(e2))
+                        self.capture(getattr(node, fld), frozenset(e2), state)
                     else:
                         state = self.expr(getattr(node, fld), state, frozenset(e2))
             return state
@@ -210,11 +211,17 @@ class Webs(object):
                 state = self._generic(ch, state, env)
         return state
 
-    def capture(self, node, env):
-        """names read by a closure: they see whatever the variable holds when the closure runs"""
+    def capture(self, node, env, state=None):
+        """names read by a closure: they see whatever the variable holds when the closure runs - a definition that
+        reaches the point where the closure is made, or any definition made later.  Outside loops "later" is "further
+        down" (control only moves forward); inside a loop every definition of the name counts."""
         for n in ast.walk(node):
             if isinstance(n, ast.Name) and n.id in self.locals and n.id not in env:
                 self.captured_uses.append(n)
+                reach = None
+                if state is not None and not self.loops:
+                    reach = (state.get(n.id, frozenset()) or frozenset([self.entry[n.id]]), self.next_id)
+                self.capture_info[id(n)] = reach if id(n) not in self.capture_info or reach is None else self.capture_info[id(n)]
 
     def target(self, t, state, env):
         if isinstance(t, ast.Name):
@@ -372,7 +379,7 @@ class Webs(object):
                 elif isinstance(n, ast.Nonlocal):
                     declared |= set(n.names)
             for b in st.body:
-                self.capture(b, frozenset(own - declared))
+                self.capture(b, frozenset(own - declared), state)
             # a nested function assigning a nonlocal: every definition of that name is one variable
             for nm in declared:
                 if nm in self.locals:
@@ -413,14 +420,21 @@ class Webs(object):
         # the loop analyses re-visit bodies: occurrences are recorded several times, harmlessly
         self.block(self.fn.body, state)
         # closures: all definitions of a captured name are one variable
-        cap = {n.id for n in self.captured_uses}
         by_name = {}
         for d, nm in self.name_of.items():
             by_name.setdefault(nm, []).append(d)
-        for nm in cap:
-            ds = by_name.get(nm, [])
-            for d in ds[1:]:
-                self.uf.union(ds[0], d)
+        self.captured_web = {}
+        for n in self.captured_uses:
+            info = self.capture_info.get(id(n))
+            ds = by_name.get(n.id, [])
+            if info is None:
+                group = list(ds)
+            else:
+                group = sorted(info[0]) + [d for d in ds if d >= info[1]]
+            for d in group[1:]:
+                self.uf.union(group[0], d)
+            if group:
+                self.captured_web[id(n)] = group[0]
         for nm in self.skip:
             ds = by_name.get(nm, [])
             for d in ds[1:]:
@@ -437,7 +451,8 @@ class Webs(object):
         for holder, d in self.occ:
             used_webs.setdefault(self.name_of[d], set()).add(self.uf.find(d))
         for n in self.captured_uses:
-            pass
+            if id(n) in self.captured_web:
+                used_webs.setdefault(n.id, set()).add(self.uf.find(self.captured_web[id(n)]))
         single = {nm for nm, ws in used_webs.items() if len(ws) == 1}
         # deterministic: webs numbered by the smallest definition id they contain
         for d in sorted(self.name_of):
@@ -462,9 +477,8 @@ class Webs(object):
             else:
                 holder.id = new
         for n in self.captured_uses:
-            ds = [d for d, nm in self.name_of.items() if nm == n.id]
-            if ds:
-                n.id = web_names[self.uf.find(ds[0])]
+            if id(n) in self.captured_web:
+                n.id = web_names[self.uf.find(self.captured_web[id(n)])]
         return self.fn
 
 
